@@ -59,16 +59,25 @@ def lp(c):
 # ------------------------------------------------------------------------------------------
 
 
+_ENC = [None]  # [TT, RR] of the current case (size stream): injective payloads for long / wide / many utterances
+
+
 def feat_of(i, T, F):
+    if _ENC[0] is not None:  # (utterance, frame, coefficient) -> distinct integers (< 2^24: exact in float32)
+        return [[(i * _ENC[0][0] + t) * F + f + 1 for f in range(F)] for t in range(T)]
     return [[100 * i + 10 * t + f + 1 for f in range(F)] for t in range(T)]
 
 
 def ali_of(i, T):
+    if _ENC[0] is not None:
+        return [i * _ENC[0][0] + t for t in range(T)]
     return [7 * i + t for t in range(T)]
 
 
 def ref_rows(i, R, W):
     """rows of width W: [tok] or [tok, start, end]"""
+    if _ENC[0] is not None:
+        return [[i * _ENC[0][1] + j + 1] + ([j, j + 1] if W == 3 else []) for j in range(R)]
     return [[50 * i + j + 1] + ([j, j + 1] if W == 3 else []) for j in range(R)]
 
 
@@ -94,6 +103,7 @@ _NAMES = [None]
 
 
 def set_names(case):
+    _ENC[0] = list(case["enc"]) if case.get("enc") else None
     if case.get("names") is not None:
         _NAMES[0] = list(case["names"])
     elif case.get("weird"):
@@ -511,7 +521,7 @@ def run_bbs(case):
 
     # bucket ids are arbitrary sortable hashables: the j-th bucket may be labelled by a negative int, a string or a tuple
     # (labels increase with j, so the flush order of the model - by bucket number - is the order of the labels)
-    lab = {None: lambda j: j, "neg": lambda j: j - 7, "str": lambda j: "b%02d" % j, "tuple": lambda j: (0, j)}[case.get("labels")]
+    lab = {None: lambda j: j, "neg": lambda j: j - 7, "str": lambda j: "b%03d" % j, "tuple": lambda j: (0, j)}[case.get("labels")]
     i2b = {i: lab(b) for i, b in enumerate(case["i2b"])}
     b2s = {lab(j): z for j, z in enumerate(case["b2s"])}
     smp = tuple(case["sampler"]) if case.get("seqtype") == "tuple" else list(case["sampler"])
@@ -1118,6 +1128,207 @@ def exhaustive_cases(chk):
     return cases
 
 
+# size thresholds / algorithm regimes: one tensor / list extent at a time at and next to 16, 32, 64, 128, 256, the
+# other extents small.  Every case carries an element that FILLS the extent (the longest utterance ends in the last
+# padded cell, the sampler's last index completes a batch, the centre frame is the last frame), payloads are injective
+# (`enc`) so that a permuted, dropped or duplicated cell shows, and the sort-like steps (sort_batch, the (length, index)
+# sort behind the quantile bounds, the flush by bucket id) get MANY TIED keys in a scrambled arrival order.  All of them
+# are judged by the same Coq check terms as the small cases.
+SIZE_Q = [17, 32, 33, 64, 65, 128, 129]
+SIZE_T = [16, 17, 31, 32, 33, 63, 64, 65, 127, 128, 129, 255, 256, 257]
+
+
+def _upto(sizes, cap):
+    return [s for s in sizes if s <= cap]
+
+
+def size_cases(chk):
+    import random
+
+    rng = random.Random(1000003 * int(chk.seed) + 14)
+    thorough = chk.tier == "thorough"
+    S = SIZE_T if thorough else SIZE_Q
+    out = []
+
+    def add(dim, **c):
+        c["stream"], c["dim"] = "size", dim
+        out.append(c)
+
+    def flip():
+        return rng.random() < 0.5
+
+    def shuffled(xs):
+        xs = list(xs)
+        rng.shuffle(xs)
+        return xs
+
+    def seed():
+        return rng.choice([0, 1, rng.randint(0, 10 ** 6)])
+
+    def spect(dim, lens, **kw):
+        c = dict(kind="spect", lens=lens, F=1, alis=False, refs=None, Wf=1, tokens_only=True, bs=2, nb=2, dyn=flip(),
+                 drop=False, shuffle=True, seed=seed(), sort=True, bf=flip(), su=False, sa=True, e0=rng.randint(0, 2), k=0,
+                 peek=None, inter=False, enc=[max(lens + [0]) + 1, 1])
+        c.update(kw)
+        if c.get("refs") is not None:
+            c["enc"] = [c["enc"][0], max(c["refs"] + [0]) + 1]
+        add(dim, **c)
+
+    def lang(dim, lens, **kw):
+        c = dict(kind="lang", lens=lens, Wf=rng.choice([1, 3]), tokens_only=flip(), bs=2, nb=2, dyn=flip(), drop=False,
+                 shuffle=True, seed=seed(), sort=True, bf=flip(), su=False, e0=rng.randint(0, 2), k=0, peek=None, inter=False,
+                 enc=[1, max(lens + [0]) + 1])
+        c.update(kw)
+        add(dim, **c)
+
+    def cw(dim, lens, **kw):
+        c = dict(kind="cw", lens=lens, F=1, alis=flip(), refs=None, Wf=1, bs=2, drop=False, left=1, right=1, reverse=flip(),
+                 su=False, shuffle=True, seed=seed(), e0=rng.randint(0, 2), k=0, peek=None, inter=False,
+                 enc=[max(lens + [0]) + 1, 1])
+        c.update(kw)
+        add(dim, **c)
+
+    def tied(n, vals):
+        """n lengths over a few values (ties everywhere), every value present"""
+        xs = [rng.choice(vals) for _ in range(n)]
+        for j, v in enumerate(vals[:n]):
+            xs[j] = v
+        return shuffled(xs)
+
+    def ramp(n, g):
+        """ties in groups of g, neighbouring groups one apart (every quantile index sits next to a different length),
+        a single longest utterance"""
+        return shuffled([j // g for j in range(n - 1)] + [(n - 1) // g + 1])
+
+    for rep in range(2 if thorough else 1):
+        # ---- BucketBatchSampler: sampler length / batch size of a bucket / number of buckets
+        for n in S + ([256, 257] if not thorough else []):
+            nbk = rng.choice([2, 3])
+            i2b = [rng.randrange(nbk) for _ in range(n)]
+            sampler = shuffled(range(n))
+            b2s = [rng.choice([2, 3, 4, 5]) for _ in range(nbk)]
+            # the LAST index the sampler yields completes a batch of its bucket (without it: a short / dropped batch)
+            cnt = sum(1 for i in sampler if i2b[i] == i2b[sampler[-1]])
+            divs = [d for d in (2, 3, 4, 5, 7) if cnt % d == 0]
+            if divs:
+                b2s[i2b[sampler[-1]]] = rng.choice(divs)
+            add("bbs.n", kind="bbs", sampler=sampler, i2b=i2b, b2s=b2s, drop=flip(), seqtype=rng.choice(["list", "tuple"]))
+        for B in S:
+            n0, n1 = rng.choice([B, B, B + 1, 2 * B, 2 * B - 1]), rng.randint(1, 4)
+            i2b = shuffled([0] * n0 + [1] * n1)
+            sampler = shuffled(range(n0 + n1))
+            j = max(p for p, i in enumerate(sampler) if i2b[i] == 0)  # an index of the big bucket comes last
+            sampler[j], sampler[-1] = sampler[-1], sampler[j]
+            add("bbs.size", kind="bbs", sampler=sampler, i2b=i2b, b2s=[B, 2], drop=flip())
+        for K in _upto(S, 129):
+            b2s = [rng.choice([2, 3]) for _ in range(K)]
+            # every bucket stays incomplete until the end: the flush sorts K open buckets that were opened in a scrambled order
+            i2b = shuffled([b for b in range(K) for _ in range(rng.randint(1, b2s[b] - 1))])
+            extra = rng.sample(range(K), 3)  # ... but three of them fill up
+            i2b = shuffled(i2b + [b for b in extra for _ in range(b2s[b])])
+            add("bbs.buckets", kind="bbs", sampler=shuffled(range(len(i2b))), i2b=i2b, b2s=b2s, drop=rng.random() < 0.2,
+                labels=rng.choice([None, "neg", "str", "tuple"]))
+        # ---- collate functions: number of items (tied lengths, sort), then T / R / F / C one at a time
+        for N in _upto(S, 129):
+            ids, vals = shuffled(range(N)), sorted(rng.sample(range(4), 2))
+            lens = tied(N, vals)
+            direct = dict(layout=None, call=rng.choice(["pos", "kw"]), seqtype=rng.choice(["list", "tuple"]), weird=False)
+            add("collate.N", kind="collate", items=[(i, T, True, rng.randint(0, 2)) for i, T in zip(ids, lens)], F=1,
+                W=rng.choice([1, 3]), bf=flip(), sort=True, has_alis=True, has_ids=True, enc=[4, 3], **direct)
+            add("lcollate.N", kind="lcollate", items=list(zip(ids, tied(N, vals))), W=rng.choice([1, 3]), bf=flip(), sort=True,
+                has_ids=True, enc=[1, 4], **direct)
+            if N in (17, 33, 65, 129) or thorough:
+                add("cwcollate.N", kind="cwcollate", items=[(i, rng.randint(0, 2), True) for i in ids], F=1, left=1, right=0,
+                    has_ids=True, enc=[3, 1], **direct)
+        for X in _upto(S, 257) + ([257] if not thorough else []):
+            direct = dict(layout=rng.choice([None, None, "t", "off", "step"]), call="pos", seqtype="list", weird=False)
+            if X % 2 or thorough:
+                # the utterance that fills T ends in the last padded cell; the others are one shorter / very short
+                add("collate.T", kind="collate", items=shuffled([(0, 1, True, 1), (1, X, True, 2), (2, X - 1, True, 0), (3, X, True, 1)]),
+                    F=rng.choice([1, 2]) if X <= 129 else 1, W=1, bf=flip(), sort=flip(), has_alis=True, has_ids=True, enc=[X + 1, 3], **direct)
+                add("lcollate.R", kind="lcollate", items=shuffled([(0, X - 1), (1, X), (2, 1), (3, X)]), W=rng.choice([1, 3]), bf=flip(),
+                    sort=flip(), has_ids=True, enc=[1, X + 1], **direct)
+            if X <= 129 and (X % 2 or thorough):
+                add("collate.R", kind="collate", items=shuffled([(0, 2, True, X - 1), (1, 1, True, X), (2, 3, True, 1)]), F=1,
+                    W=rng.choice([1, 3]), bf=flip(), sort=flip(), has_alis=flip(), has_ids=True, enc=[4, X + 1], **direct)
+                add("collate.F", kind="collate", items=shuffled([(0, 2, True, 1), (1, 0, True, 0), (2, 3, True, 2)]), F=X, W=1,
+                    bf=flip(), sort=flip(), has_alis=flip(), has_ids=True, enc=[4, 3], **direct)
+                add("cwcollate.T", kind="cwcollate", items=shuffled([(0, X, True), (1, 2, True), (2, X - 1, True)]), F=1, left=1, right=1,
+                    has_ids=True, enc=[X + 1, 1], **direct)
+                lr = (X - 1, 0) if flip() else (rng.randint(0, 1), X - 1 - rng.randint(0, 1))
+                add("cwcollate.C", kind="cwcollate", items=[(0, 2, True), (1, 3, True)], F=1, left=lr[0], right=lr[1], has_ids=flip(),
+                    enc=[4, 1], **direct)
+                add("cwcollate.F", kind="cwcollate", items=[(0, 2, True), (1, 1, True)], F=X, left=1, right=0, has_ids=flip(),
+                    enc=[3, 1], **direct)
+        # ---- extract_window: T (centre = last / first / inner frame), left, right, F
+        for X in _upto(S, 257) + ([256, 257] if not thorough else []):
+            direct = dict(layout=rng.choice([None, None, "t", "off", "step"]), call=rng.choice(["pos", "kw"]), enc=[X + 2, 1])
+            add("window.T", kind="window", T=X, F=rng.choice([1, 2]), idx=X - 1, left=rng.randint(0, 3), right=rng.randint(1, 3),
+                reverse=flip(), **direct)
+            add("window.T", kind="window", T=X, F=1, idx=rng.choice([0, X - 2, X // 2, X - rng.randint(1, 3)]), left=rng.randint(0, 3),
+                right=rng.randint(0, 3), reverse=flip(), **direct)
+            if X <= 129:
+                T = rng.choice([1, 2, 3, X, X + 1])  # X + 1 frames, centre X: the window fits exactly, nothing is replicated
+                add("window.left", kind="window", T=T, F=1, idx=T - 1 if T > 3 else rng.randrange(T), left=X, right=rng.randint(0, 2),
+                    reverse=flip(), **direct)
+                T = rng.choice([1, 2, 3, X, X + 1])
+                add("window.right", kind="window", T=T, F=1, idx=0 if T > 3 else rng.randrange(T), left=rng.randint(0, 2), right=X,
+                    reverse=flip(), **direct)
+                add("window.F", kind="window", T=3, F=X, idx=rng.randrange(3), left=rng.randint(0, 2), right=rng.randint(0, 2),
+                    reverse=flip(), **direct)
+        # ---- the loaders on real directories
+        for N in _upto(S, 129 if thorough else 65):
+            # number of utterances: the (length, index) sort and the quantile indices over N entries with many ties
+            lens = tied(N, sorted(rng.sample(range(5), 3))) if flip() else ramp(N, rng.choice([2, 3]))
+            spect("spect.N", lens, nb=rng.choice([2, 3, 4, 5]), bs=rng.randint(2, 5), drop=flip(), su=flip())
+            # batch size 1: every sample of the epoch, the last one included, is a batch of its own in len()
+            (spect if N != 33 else lang)("spect.N" if N != 33 else "lang.N", shuffled(lens), nb=rng.choice([2, 3]), bs=1, dyn=False,
+                                         shuffle=flip())
+            if N % 2 or thorough:
+                lens = ramp(N, rng.choice([2, 3])) if flip() else tied(N, sorted(rng.sample(range(5), 3)))
+                lang("lang.N", lens, nb=rng.choice([2, 3, 4, 5]), bs=rng.randint(2, 5), drop=flip(), su=flip())
+                cw("cw.N", tied(N, [0, 1, 2]), bs=rng.choice([N, N - 1, 17, 3]), drop=flip())
+        for bs in _upto(S, 65):
+            if not (bs % 2 or thorough):
+                continue
+            # batch size: one collated batch of >= bs utterances whose lengths are tied, sort_batch=True
+            spect("spect.bs", tied(bs + rng.randint(0, 3), sorted(rng.sample(range(1, 4), 2))), nb=1, bs=bs, dyn=False)
+            if bs <= 33:
+                # two buckets: bs + r1 utterances of ONE length (bound a), bs + r2 of two longer lengths (bound c): each bucket
+                # delivers a full batch of bs tied utterances
+                a, b, c = sorted(rng.sample(range(1, 5), 3))
+                r1 = rng.randint(0, 2)
+                r2 = rng.randint(0, r1 + 1)
+                spect("spect.bs", shuffled([a] * (bs + r1) + [b] * (bs // 2) + [c] * (bs - bs // 2 + r2)), nb=2, bs=bs, dyn=False)
+                lang("lang.bs", tied(bs + rng.randint(0, 3), sorted(rng.sample(range(4), 2))), nb=1, bs=bs, dyn=False)
+        for nb in _upto(S, 65):
+            if not (nb % 2 or thorough):
+                continue
+            # number of length buckets (also far more buckets than utterances)
+            n = 2 * nb + rng.randint(0, 3) if nb <= 33 else rng.randint(17, 24)
+            spect("spect.nb", ramp(n, 2), nb=nb, bs=2)
+            if nb <= 17 or thorough:
+                lang("lang.nb", ramp(n, 2), nb=nb, bs=rng.choice([1, 2]))
+        for X in _upto(S, 257) + ([257] if not thorough else []):
+            if not (X % 2 or thorough):
+                continue
+            # T / R / F / window sizes: the longest utterance defines the padded extent, the last bound and the dynamic sizes
+            spect("spect.T", shuffled([X, 1, X - 1, 0, X]), alis=True, sa=False, nb=2, bs=rng.choice([1, 2]),
+                  F=rng.choice([1, 2]) if X <= 129 else 1)
+            if X <= 129 or thorough:
+                lang("lang.R", shuffled([X, X - 1, 1, 2, X]), nb=2, bs=rng.choice([1, 2]))
+            if X <= 129:
+                spect("spect.R", [2, 1, 3], refs=shuffled([X, X - 1, 1]), Wf=rng.choice([1, 3]), tokens_only=False, nb=1, bs=3)
+                spect("spect.F", shuffled([2, 0, 3]), F=X, nb=1, bs=rng.choice([2, 3]))
+                cw("cw.T", shuffled([X, 2, X - 1]), left=rng.randint(0, 2), right=rng.randint(1, 2))
+            if X <= 65:
+                cw("cw.left", shuffled([2, 3, 1]), left=X, right=rng.randint(0, 1))
+                cw("cw.right", shuffled([2, 3, 1]), left=rng.randint(0, 1), right=X)
+                cw("cw.F", shuffled([2, 1]), F=X)
+    rng.shuffle(out)  # the heavy terms of one dimension do not end up in one evaluation shard
+    return out
+
+
 def gen_cases(chk):
     cases = exhaustive_cases(chk)
     for c in load_corpus("C14"):
@@ -1126,13 +1337,19 @@ def gen_cases(chk):
         cases.append(c)
     big = chk.tier == "thorough"
     mult = 12 if big else 1
-    plan = [("spect", 280), ("lang", 160), ("cw", 150), ("bbs", 400), ("collate", 200), ("lcollate", 100),
-            ("cwcollate", 80), ("window", 150)]
+    # (the size stream below replaced 25 + 15 + 15 random loader cases and 110 random direct calls: same wall time)
+    plan = [("spect", 255), ("lang", 145), ("cw", 135), ("bbs", 370), ("collate", 180), ("lcollate", 85),
+            ("cwcollate", 65), ("window", 120)]
     for kind, n in plan:
         for _ in range(n * mult):
             c = GENS[kind](chk.rng, big)
             c["stream"] = "random"
             cases.append(c)
+    # the size cases carry the large Coq terms: spread them over the evaluation shards
+    big_ones = size_cases(chk)
+    step = max(len(cases) // (len(big_ones) + 1), 1)
+    for j, c in enumerate(big_ones):
+        cases.insert(min((j + 1) * step + j, len(cases)), c)
     return cases
 
 
@@ -1329,7 +1546,9 @@ def run(chk, cases=None):
         "object / separate data_params / data_params is params / positional call), deprecated wrapper classes, cw seed by params vs "
         "argument and deprecated left/right/reverse arguments, own utterance names (prefixes of each other, separators) and decoy "
         "utterances excluded by subset_ids or a missing companion file, memory layout / float64 / keyword call / tuple container for the "
-        "direct calls (inputs unchanged, dtype kept); every cw data set is compared frame by frame with extract_window. Where model and code differ, where the code raises, and in the regions of "
+        "direct calls (inputs unchanged, dtype kept); every cw data set is compared frame by frame with extract_window. Stream `size`: one "
+        "extent at a time (utterances, batch size, buckets, sampler length, items of a collated batch, T, R, F, window left/right) at 16..257 "
+        "with an element that fills the extent, injective payloads and many tied sort keys, judged by the same model terms. Where model and code differ, where the code raises, and in the regions of "
         "the recorded defects the Spec.v checkers judge the code's output. "
         "non-trivial = at least two buckets actually occur (loaders), two buckets among >=3 samples (bbs), two "
         "different lengths (collate), an edge actually replicated (window)")
@@ -1350,6 +1569,8 @@ def run(chk, cases=None):
         sterms.append(s)
         chk.note_case(c, nontrivial(c, out), stream)
         chk.count("kind=" + c["kind"])
+        if c.get("dim"):
+            chk.count("size.dim=" + c["dim"])
         chk.count("outcome=" + ("ok" if "ok" in out else "raise:" + out["err"]))
         for key in ("nb", "bs", "dyn", "drop", "shuffle", "sort", "bf", "su", "sa", "tokens_only", "reverse", "has_alis", "has_ids", "peek", "inter",
                     "inter2", "entry", "cls", "seed_via", "dep_args", "layout", "call", "seqtype", "weird", "omit_defaults", "labels"):
